@@ -294,6 +294,8 @@ def pmap(func, items, base, procs=None, chunksize=1):
     if not items:
         return []
     procs = procs or min(16, os.cpu_count() or 4, max(1, len(items)))
+    if "ceos_alos2" in sys.modules:  # (the workers would refuse to start, and the pool would respawn them for ever)
+        raise Machinery("ceos_alos2 imported in the parent before forking workers")
     ctx = mp.get_context("fork")
     with ctx.Pool(procs, initializer=_pool_init, initargs=(base,)) as pool:
         return pool.map(func, items, chunksize)
